@@ -132,6 +132,9 @@ func Proposal(r *R) abs.Proposal {
 	if r.Chance(1, 6) {
 		n = 6 + r.Intn(7)
 	}
+	if r.Chance(1, 60) {
+		n = r.Pick(254, 255, 255, 128) // the transform count is an 8-bit field
+	}
 	for i := 0; i < n; i++ {
 		p.Transforms = append(p.Transforms, Transform(r, uint8(1+r.Intn(5))))
 	}
@@ -143,6 +146,13 @@ func SA(r *R) abs.Payload {
 	n := 1
 	if r.Chance(1, 3) {
 		n = 2 + r.Intn(5)
+	}
+	if r.Chance(1, 80) {
+		n = r.Pick(40, 255, 256, 300) // many proposals (small ones, so that the payload still fits)
+		for i := 0; i < n; i++ {
+			sa.Proposals = append(sa.Proposals, abs.Proposal{Num: uint8(i), Proto: 3, SPI: DataN(r, 4), Transforms: []abs.Transform{Transform(r, uint8(1+r.Intn(5)))}})
+		}
+		return abs.Payload{Kind: abs.PSA, SA: sa}
 	}
 	for i := 0; i < n; i++ {
 		sa.Proposals = append(sa.Proposals, Proposal(r))
@@ -182,6 +192,9 @@ func CP(r *R) abs.Payload {
 	n := 1 + r.Intn(4)
 	if r.Chance(1, 8) {
 		n = 5 + r.Intn(36)
+	}
+	if r.Chance(1, 60) {
+		n = r.Pick(255, 256, 257, 400)
 	}
 	for i := 0; i < n; i++ {
 		a := abs.CPAttr{}
@@ -404,6 +417,22 @@ func Msg(r *R, o Opt) *abs.Msg {
 			n = 1
 		default:
 			n = 1 + r.Intn(o.MaxPayloads)
+		}
+		if o.AllowBig && r.Chance(1, 120) {
+			// a long chain of small payloads (counts above 255)
+			n = r.Pick(255, 256, 257, 300)
+			for i := 0; i < n; i++ {
+				k := allKinds[r.Intn(len(allKinds))]
+				switch k {
+				case abs.PSA, abs.PCP, abs.PTSi, abs.PTSr, abs.PEAP, abs.PDelete:
+					k = abs.PNotify
+				}
+				m.Payloads = append(m.Payloads, Payload(r, k))
+			}
+			if Fits(m, o.Protected) {
+				return m
+			}
+			continue
 		}
 		for i := 0; i < n; i++ {
 			if o.AllowBig && r.Chance(1, 40) {
